@@ -11,13 +11,13 @@ pub static DEF: CheckDef = CheckDef {
     id: "C07",
     run,
     replay,
-    rule: "complete product IF (32) x IE (32) x master enable (off, on, EI-pending) x run state (running, halted, stopped) x 64 stack pointers (0x0000/0x0001/0x0002 so that a push lands on IE, 0xFF10/0xFF11 on IF, 0x2001/0x4001/0x6001 on bank registers, both sides of every region boundary, I/O registers with side effects: DIV, DMA, STAT, LCDC) x PC values (all 256 high bytes when the high-byte push lands on IE or IF, all 256 low bytes when the low-byte push does, 4 otherwise), poked into two identical machines; one calls Core::handle_interrupt, the other is driven by the reference dispatch model (models::irq) through its bus. Compared: run state, master enable, PC, SP (as full 32-bit fields), charged cycles, IF, IE, the ordered list of bus writes (hook) and the complete machine state. IF and IE are also written with their unused upper bits set (only sources 0-4 exist). Second pass: the same product on 6 stack pointers reached through update(), run_interp() and run_code_block(). Third pass: proptest states with arbitrary SP/PC. Fourth pass (the five machine cycles are really charged): for every non-empty IF x 4 handler shapes x 4 (IE, halted?, SP, PC) settings, after handle_interrupt() has dispatched, the handler's first step is run by update() of the interpreter build, as a block of the interpreter build and as a translated block of the jit build; the clocks delivered to the devices by that step (hook: running total; the divider) must be 4 x (5 + the machine cycles of the instructions executed, per models::sm83), last_block_cycle_length must say the same and no cycles may remain pending. Non-trivial = states with a pending enabled source; classes: two or more pending, masked only, cancelled by the push, woken from HALT/STOP, push on IE / IF / bank register.",
+    rule: "complete product IF (32) x IE (32) x master enable (off, on, EI-pending) x run state (running, halted, stopped) x 64 stack pointers (0x0000/0x0001/0x0002 so that a push lands on IE, 0xFF10/0xFF11 on IF, 0x2001/0x4001/0x6001 on bank registers, both sides of every region boundary, I/O registers with side effects: DIV, DMA, STAT, LCDC) x PC values (all 256 high bytes when the high-byte push lands on IE or IF, all 256 low bytes when the low-byte push does, 4 otherwise), poked into two identical machines; one calls Core::handle_interrupt, the other is driven by the reference dispatch model (models::irq) through its bus. Compared: run state, master enable, PC, SP (as full 32-bit fields), charged cycles, IF, IE, the ordered list of bus writes (hook) and the complete machine state. IF and IE are also written with their unused upper bits set (only sources 0-4 exist). Second pass: the same product on 6 stack pointers reached through update(), run_interp() and run_code_block(). Third pass: proptest states with arbitrary SP/PC. Fifth pass (the push itself raises a request): with the timer armed (selected divider bit high, TIMA = 0xFF) or LYC = LY, SP = 0xFF08 / 0xFF07 / 0xFF42 / 0xFF46 and all 256 PC high bytes, so that the high-byte push onto TAC, STAT or LYC changes IF through the device - the source must be the highest-priority one pending after that push. Fourth pass (the five machine cycles are really charged): for every non-empty IF x 4 handler shapes x 4 (IE, halted?, SP, PC) settings, after handle_interrupt() has dispatched, the handler's first step is run by update() of the interpreter build, as a block of the interpreter build and as a translated block of the jit build; the clocks delivered to the devices by that step (hook: running total; the divider) must be 4 x (5 + the machine cycles of the instructions executed, per models::sm83), last_block_cycle_length must say the same and no cycles may remain pending. Non-trivial = states with a pending enabled source; classes: two or more pending, masked only, cancelled by the push, woken from HALT/STOP, push on IE / IF / bank register.",
     assumptions: &[
         "models::irq (dispatch sequence from the CPU documentation: high byte pushed first, source chosen after the high-byte push, five machine cycles)",
         "when the low-byte push itself lands on IF the order of that write and the acknowledge is not prescribed: both resulting IF values are accepted",
         "bus side effects of the two pushes are produced by the repository's own bus on the twin machine (address decode is C10's subject)",
     ],
-    required_classes: &["two-or-more-pending", "masked-only", "cancelled", "woken-halt", "woken-stop", "push-on-ie", "push-on-if", "push-on-bank-register", "ime-off-pending", "via-update", "via-run_interp", "via-run_code_block", "generated-state", "unused-bits-set-in-both", "dispatch-cycles-reach-devices", "after-dispatch-jit-block"],
+    required_classes: &["two-or-more-pending", "masked-only", "cancelled", "woken-halt", "woken-stop", "push-on-ie", "push-on-if", "push-on-bank-register", "ime-off-pending", "via-update", "via-run_interp", "via-run_code_block", "generated-state", "unused-bits-set-in-both", "dispatch-cycles-reach-devices", "after-dispatch-jit-block", "push-onto-armed-device", "request-raised-by-the-push-is-taken"],
     exhaustive: true,
 };
 
@@ -30,10 +30,14 @@ struct Case {
     sp: u16,
     pc: u16,
     path: u8,
+    /// device state prepared before the check (0: power-on state): the high-byte push itself
+    /// can then raise a request (see `prepare`)
+    #[serde(default)]
+    prep: u8,
 }
 
 fn case_json(c: &Case) -> Value {
-    json!({"kind": "irq", "if": c.if_, "ie": c.ie, "ime": c.ime, "run_state": c.run, "sp": c.sp, "pc": c.pc, "path": c.path})
+    json!({"kind": "irq", "if": c.if_, "ie": c.ie, "ime": c.ime, "run_state": c.run, "sp": c.sp, "pc": c.pc, "path": c.path, "prep": c.prep})
 }
 
 struct Twin<'a> {
@@ -135,7 +139,40 @@ fn set_state(m: &mut i::M, c: &Case) {
     m.set_regs(&r);
 }
 
+/// Device states in which a store made by the dispatch itself raises a request:
+/// 1: timer running on divider bit 3 (TAC = 5), that bit high, TIMA = 0xFF - a push of a byte
+///    with bit 2 clear, or selecting a low bit, onto TAC (SP = 0xFF08) overflows TIMA;
+/// 2: the same on divider bit 5 (TAC = 6);
+/// 3: LYC = LY (144 at power-on) - a push onto STAT (SP = 0xFF42) or LYC (SP = 0xFF46) may
+///    raise the STAT request (what the device does there is its own business; the dispatch
+///    must sample IF & IE after the high-byte push whatever made them change).
+fn prepare(m: &mut i::M, prep: u8) {
+    match prep {
+        1 => {
+            m.write(0xff07, 0x05);
+            m.run_clocks(8);
+            m.write(0xff06, 0x33);
+            m.write(0xff05, 0xff);
+        }
+        2 => {
+            m.write(0xff07, 0x06);
+            m.run_clocks(32);
+            m.write(0xff06, 0x77);
+            m.write(0xff05, 0xff);
+        }
+        3 => {
+            m.write(0xff45, 144);
+            m.write(0xff41, 0x00);
+        }
+        _ => {}
+    }
+}
+
 fn exec(p: &mut Pair, c: &Case, rec: &mut Rec, counting: bool, full: bool) -> CaseResult {
+    if c.prep != 0 {
+        prepare(&mut p.a, c.prep);
+        prepare(&mut p.t, c.prep);
+    }
     set_state(&mut p.a, c);
     set_state(&mut p.t, c);
     // machine under test
@@ -204,6 +241,9 @@ fn exec(p: &mut Pair, c: &Case, rec: &mut Rec, counting: bool, full: bool) -> Ca
         if let IrqOutcome::Dispatched { ack, pushes, .. } = &out {
             if *ack == 0 {
                 rec.class("cancelled", 1);
+            }
+            if *ack != 0 && *ack & c.if_ == 0 {
+                rec.class("request-raised-by-the-push-is-taken", 1);
             }
             for (a, _) in pushes {
                 match *a {
@@ -286,7 +326,7 @@ fn exec(p: &mut Pair, c: &Case, rec: &mut Rec, counting: bool, full: bool) -> Ca
         }
         Ok(())
     })();
-    let force = c.path != 0 || verdict.is_err();
+    let force = c.path != 0 || c.prep != 0 || verdict.is_err();
     put_back(&mut p.a, &p.snap, p.ram_bank0, &touched, force);
     put_back(&mut p.t, &p.snap, p.ram_bank0, &touched, force);
     verdict
@@ -417,7 +457,7 @@ fn run(rec: &mut Rec) {
             for run in [RUN, STOPPED, HALTED] {
                 for sp in &sps {
                     for pc in pcs_for(*sp, thorough) {
-                        let c = Case { if_, ie, ime, run, sp: *sp, pc, path: 0 };
+                        let c = Case { if_, ie, ime, run, sp: *sp, pc, path: 0, prep: 0 };
                         n += 1;
                         if n % 4096 == 1 {
                             rec.current(&case_json(&c).to_string());
@@ -432,7 +472,7 @@ fn run(rec: &mut Rec) {
                 // IF and IE written with their unused upper bits set: only sources 0-4 exist
                 for (fi, fe) in [(0xe0u8, 0xe0u8), (0xe0, 0x00), (0x00, 0xe0), (0xa0, 0x60)] {
                     for sp in [0xd000u16, 0x0000, 0xff10, 0xff11] {
-                        let c = Case { if_: if_ | fi, ie: ie | fe, ime, run, sp, pc: 0x2345, path: 0 };
+                        let c = Case { if_: if_ | fi, ie: ie | fe, ime, run, sp, pc: 0x2345, path: 0, prep: 0 };
                         rec.eval(1);
                         if fi & fe != 0 {
                             rec.class("unused-bits-set-in-both", 1);
@@ -445,7 +485,7 @@ fn run(rec: &mut Rec) {
                 // second pass: through the emulator's stepping entry points
                 for path in 1..=3u8 {
                     for sp in [0xd000u16, 0x0000, 0x0001, 0xff10, 0xff11, 0xfffe] {
-                        let c = Case { if_, ie, ime, run, sp, pc: if path == 3 { 0x0150 } else { 0x0160 }, path };
+                        let c = Case { if_, ie, ime, run, sp, pc: if path == 3 { 0x0150 } else { 0x0160 }, path, prep: 0 };
                         rec.eval(1);
                         if let Err(f) = exec(&mut p, &c, rec, true, true) {
                             rec.violation(&f.sig, case_json(&c), f.detail);
@@ -455,10 +495,31 @@ fn run(rec: &mut Rec) {
             }
         }
         if item % 37 == 0 {
-            rec.sample(|| case_json(&Case { if_, ie, ime: IME_ENABLED, run: HALTED, sp: 0x0000, pc: 0x0242, path: 0 }));
+            rec.sample(|| case_json(&Case { if_, ie, ime: IME_ENABLED, run: HALTED, sp: 0x0000, pc: 0x0242, path: 0, prep: 0 }));
         }
     }
     rec.exhaustive_part("IF (32) x IE (32) x master enable (3) x run state (3) x the listed stack pointers and PC sets, direct and through update/run_interp/run_code_block");
+    // fifth pass: the high-byte push itself raises a request (through the device it lands on);
+    // the source is chosen after that push
+    for item in 0..256usize {
+        if !rec.ctx.mine(item) || rec.too_many() {
+            continue;
+        }
+        let pch = item as u8;
+        for (prep, sp) in [(1u8, 0xff08u16), (2, 0xff08), (3, 0xff42), (3, 0xff46), (1, 0xff07), (0, 0xff08)] {
+            for (if_, ie) in [(0x10u8, 0x14u8), (0x08, 0x0c), (0x18, 0x1f), (0x10, 0x16), (0x08, 0x0a), (0x10, 0x10), (0x01, 0x1f)] {
+                for run in [RUN, HALTED] {
+                    let c = Case { if_, ie, ime: IME_ENABLED, run, sp, pc: (pch as u16) << 8 | 0x34, path: 0, prep };
+                    rec.eval(1);
+                    rec.class("push-onto-armed-device", 1);
+                    if let Err(f) = exec(&mut p, &c, rec, true, true) {
+                        rec.current(&case_json(&c).to_string());
+                        rec.violation(&format!("armed-{}", f.sig), case_json(&c), f.detail);
+                    }
+                }
+            }
+        }
+    }
     // fourth pass: the dispatch's five machine cycles reach the devices with the handler's first step
     for item in 0..(32 * 4 * 3) as usize {
         if !rec.ctx.mine(item) || rec.too_many() {
@@ -488,12 +549,12 @@ fn run(rec: &mut Rec) {
         let path = v.6;
         // stepping paths execute the instruction at PC: keep PC on the prepared code
         let pc = if path == 0 { v.5 } else if path == 3 { 0x0150 } else { 0x0160 };
-        Case { if_: v.0, ie: v.1, ime: [IME_DISABLED, IME_ENABLED, IME_ENABLE_NEXT][v.2 as usize], run: [RUN, STOPPED, HALTED][v.3 as usize], sp: v.4, pc, path }
+        Case { if_: v.0, ie: v.1, ime: [IME_DISABLED, IME_ENABLED, IME_ENABLE_NEXT][v.2 as usize], run: [RUN, STOPPED, HALTED][v.3 as usize], sp: v.4, pc, path, prep: 0 }
     };
     let to_json: fn(&(u8, u8, u8, u8, u16, u16, u8)) -> Value = |v| {
         let path = v.6;
         let pc = if path == 0 { v.5 } else if path == 3 { 0x0150 } else { 0x0160 };
-        case_json(&Case { if_: v.0, ie: v.1, ime: [IME_DISABLED, IME_ENABLED, IME_ENABLE_NEXT][v.2 as usize], run: [RUN, STOPPED, HALTED][v.3 as usize], sp: v.4, pc, path })
+        case_json(&Case { if_: v.0, ie: v.1, ime: [IME_DISABLED, IME_ENABLED, IME_ENABLE_NEXT][v.2 as usize], run: [RUN, STOPPED, HALTED][v.3 as usize], sp: v.4, pc, path, prep: 0 })
     };
     run_generated(rec, "gen", cases, strat, to_json, |v, rec, counting| {
         let c = mk(v);
@@ -519,7 +580,7 @@ fn replay(case: &Value, rec: &mut Rec) {
         }
         return;
     }
-    let c = Case { if_: g("if") as u8, ie: g("ie") as u8, ime: g("ime") as u8, run: g("run_state") as u8, sp: g("sp") as u16, pc: g("pc") as u16, path: g("path") as u8 };
+    let c = Case { if_: g("if") as u8, ie: g("ie") as u8, ime: g("ime") as u8, run: g("run_state") as u8, sp: g("sp") as u16, pc: g("pc") as u16, path: g("path") as u8, prep: g("prep") as u8 };
     let mut p = new_pair();
     rec.eval(1);
     rec.current(&case.to_string());
